@@ -59,3 +59,7 @@ def define(M):
     M("C15", "dtc_diagonal_only", DT,
       "    return component.transformation[:4] != IDENTITY_2x2",
       "    return (component.transformation[0], component.transformation[3]) != (1, 1)")
+    # the repaired defect (12c3925) put back: empty included glyphs keep their advance
+    M("C15", "tf_empty_glyph_early_return", "Lib/ufo2ft/filters/transformations.py",
+      "            size = matrix.transformVector((glyph.width, glyph.height))\n            if size == (glyph.width, glyph.height):\n                return False\n            glyph.width, glyph.height = size\n            return True",
+      "            return False")
